@@ -62,11 +62,13 @@ def shards(tier):
         for ti in range(len(topos)):
             for ch in sp.chunks(range(len(allk)), 8):
                 out.append(("phasor Cq(%d,%d)|K%d" % (n, b, len(pk)), ("pha", n, b, ti, pk, ch[0], ch[-1] + 1)))
-    for (n, b) in [(2, 2), (2, 3), (3, 3), (3, 4)]:
+    for (n, b) in [(2, 2), (2, 3), (3, 3), (3, 4), (3, 5)]:
         topos = sp.topologies(n, b)
         allk = dyn.kind_tuples(b) if b < 4 else [kt for kt in dyn.kind_tuples(b) if dyn4(kt)]
+        if b == 5:
+            allk = dyn.kind_tuples(b, "twin")      # two independent inductors / capacitors need five branches
         for ti in range(len(topos)):
-            for ch in sp.chunks(range(len(allk)), 4 if b < 4 else 1):
+            for ch in sp.chunks(range(len(allk)), 4 if b < 4 else (1 if b < 5 else 2)):
                 out.append(("dynamics RLC(%d,%d)" % (n, b), ("dyn", n, b, ti, ch[0], ch[-1] + 1, tier)))
     return out
 
@@ -490,6 +492,8 @@ def run_dyn(desc, res):
     _, n, b, ti, k0, k1, tier = desc
     topo = sp.topologies(n, b)[ti]
     allk = dyn.kind_tuples(b) if b < 4 else [kt for kt in dyn.kind_tuples(b) if dyn4(kt)]
+    if b == 5:
+        allk = dyn.kind_tuples(b, "twin")
     for kt in allk[k0:k1]:
         res["evals"] += 1
         ok, why = dyn.class_non_degenerate(topo, kt)
@@ -509,6 +513,12 @@ def run_dyn(desc, res):
         base = {"node_perm": list(range(n)), "id_perm": list(range(b)), "order": list(range(b)), "reverse": 0, "ref": 0, "ground_pos": b}
         # complete id x listing-order product
         orders = list(itertools.permutations(range(b)))
+        if b == 5:
+            # five components: every id permutation, with the given, the reversed and the reactive-pair-swapped listing order
+            rp = [k for k, kn in enumerate(kt) if kn in "CL"]
+            sw = list(range(b))
+            sw[rp[0]], sw[rp[1]] = sw[rp[1]], sw[rp[0]]
+            orders = [tuple(range(b)), tuple(reversed(range(b))), tuple(sw)]
         for idp in itertools.permutations(range(b)):
             for order in orders:
                 res["evals"] += 1
